@@ -106,6 +106,9 @@ def _stmt(op, r, depth):
         return b'CLOSE#%d' % op[1]
     if k == 'O':
         return b'OPEN "R",%d,"%s",%d' % (op[1], FILES[0], r)   # file name patched by caller
+    if k == 'B':
+        # a FIELD statement that is refused after its first item (width above 255); Z$ is a scratch variable
+        return b'FIELD#%d,1 AS Z$,300 AS Z$' % op[1]
     if k == 'X':
         return b'CLEAR:FIELD...'
     raise CheckError('bad op %r' % (op,))
@@ -332,6 +335,8 @@ def _model_step(model, op, depth, real_bufs=None):
     if k == 'F':
         model.nums[op[1]].lay = op[2]
         return None, None
+    if k == 'B':
+        return error.IFC, 'refused-field'
     if k == 'C':
         model.nums[op[1]].open = False
         return None, None
@@ -369,6 +374,7 @@ def _candidates(cfg, model):
         ops.append(('S', n, 0, 'L'))
         ops.append(('S', n, 1, 'R'))
         ops.append(('F', n, 1 - s.lay))
+        ops.append(('B', n))
         ops.append(('C', n))
     if all(s.open for s in model.nums.values()):
         # (with a closed number its former FIELD variables would simply vanish)
@@ -424,7 +430,10 @@ def _check(real, cfg, model, op, depth, viols):
     real_bufs = {n: real.buffer(probe, n, lo[n]) for n in probe.nums}
     exp_err, _ = _model_step(after, op, depth, real_bufs)
     if exp_err is not None:
-        if res != exp_err:
+        if res != exp_err and k == 'B':
+            viols.append(('field/refused-field-%s' % ('accepted' if res is None else 'wrong-error-%s' % res),
+                          '%r: got %r, expected Illegal function call' % (_stmt(op, model.r, depth), res)))
+        elif res != exp_err:
             viols.append(('%s/out-of-range-record-%s' % (
                 'put' if k == 'P' else 'get', 'accepted' if res is None else 'wrong-error-%s' % res),
                 '%r: got %r, expected Bad record number (63)' % (_stmt(op, model.r, depth), res)))
@@ -500,7 +509,13 @@ def _expand(hist, only_op=None):
                 first_light = lo
                 cands = _candidates(cfg, model) if only_op is None else [only_op]
             elif lo != first_light:
-                raise CheckError('rebuild of %r is not deterministic: %r vs %r' % (hist, lo, first_light))
+                # CLOSE, deleting the files, CLEAR, OPEN and FIELD start every replay: something of the previous
+                # statements has survived all of that and changes what the same history does
+                out.append((cands[idx - 1] if idx else ('reset',), None, [(
+                    'reset/state-survives-close-clear-and-reopen',
+                    'the history %r replayed after %r (then CLOSE, files deleted, CLEAR, OPEN, FIELD) leaves the FIELD variables as %r, '
+                    'the first time %r' % (ops, cands[idx - 1] if idx else None, lo, first_light))], '%s/reset:differs' % layout))
+                break
             if idx >= len(cands):
                 break
             op = cands[idx]
